@@ -138,6 +138,13 @@ fn build_tree() -> Tree {
             }
         }
     }
+    // modification times: siblings older and newer than their originals, by seconds and by years
+    // (substitution does not depend on them)
+    let now = std::time::SystemTime::now();
+    let ago = |s: u64| now - std::time::Duration::from_secs(s);
+    for (name, t) in [("a.gz", ago(86_400 * 400)), ("a", ago(5)), ("b.gz.gz", ago(3)), ("sub/a.gz", ago(100)), ("f.tar.gz", ago(2)), ("f.tar", ago(86_400)), ("h.gz", ago(7_000))] {
+        let _ = std::fs::File::options().write(true).open(base.join(name)).and_then(|f| f.set_modified(t));
+    }
     let root = Node::Dir { id: id_of(&base), entries: top };
     Tree { _tmp: tmp, base, root, secret }
 }
@@ -407,7 +414,7 @@ impl Prop for C19 {
         "exploration"
     }
     fn rule(&self, ctx: &Ctx) -> String {
-        format!("exhaustive: every path of <= {} segments over {{a, sub, .., ., ..., ..a, a.., empty, secret}} joined by '/', with and without a leading slash (trailing slashes = empty last segment), plus names around the .gz logic (file with sibling, file without, sibling that is a directory, sibling that is a character device, empty sibling, .gz-only name, directory with a .gz file sibling, names of 200..255 bytes - with a sibling where one fits in a directory entry); a NUL byte inserted at every position of 300 of them; x Accept-Encoding {{absent, gzip, identity, gzip;q=0, *, gzip;q=0.5 vs identity;q=0.6}} x auto_gzip on/off; on a real tree with a 'secret' file next to the base directory. Oracle: in-memory POSIX relative-path resolver (self-checked against the kernel on every non-rejected path) giving the expected (dev, inode) or errno. Every regular file opened is also turned into an entity (`into_file_entity`) and read back: its bytes must be those of the file the path names (each file contains its own path). Non-trivial = distinct (path, Accept-Encoding, auto_gzip) judged; descriptor count of the process must return to its baseline", max_segs(ctx))
+        format!("exhaustive: every path of <= {} segments over {{a, sub, .., ., ..., ..a, a.., empty, secret}} joined by '/', with and without a leading slash (trailing slashes = empty last segment), plus names around the .gz logic (file with sibling, file without, sibling that is a directory, sibling that is a character device, empty sibling, .gz-only name, directory with a .gz file sibling, names of 200..255 bytes - with a sibling where one fits in a directory entry; siblings older and newer than their originals); a NUL byte inserted at every position of 300 of them; x Accept-Encoding {{absent, gzip, identity, gzip;q=0, *, gzip;q=0.5 vs identity;q=0.6}} x auto_gzip on/off; on a real tree with a 'secret' file next to the base directory. Oracle: in-memory POSIX relative-path resolver (self-checked against the kernel on every non-rejected path) giving the expected (dev, inode) or errno. Every regular file opened is also turned into an entity (`into_file_entity`) and read back: its bytes must be those of the file the path names (each file contains its own path). Non-trivial = distinct (path, Accept-Encoding, auto_gzip) judged; descriptor count of the process must return to its baseline", max_segs(ctx))
     }
     fn n_blocks(&self, _: &Ctx) -> usize {
         12 + 1 + 1
